@@ -23,6 +23,7 @@ import (
 	"strconv"
 	"strings"
 	"sync"
+	"sync/atomic"
 	"time"
 
 	"cuelang.org/go/cue"
@@ -353,7 +354,15 @@ type dispatchMsg struct {
 
 var errInjected = errors.New("injected failure")
 
-const stepTimeout = 20 * time.Second
+// A step of the controller takes well under a millisecond; waiting this long
+// for the next event means the controller is stuck (deadlock = VIOLATION).
+const stepTimeout = 15 * time.Second
+
+// number of runs that ended in a timeout; once a few have been seen the
+// remaining jobs are skipped so that a deadlocking controller is reported quickly
+var timeouts atomic.Int32
+
+const maxTimeouts = 4
 
 func stateLetter(s flow.State) string {
 	switch s {
@@ -1023,7 +1032,21 @@ func runJobs(jobs []job, par int) []jobOut {
 			defer wg.Done()
 			defer func() { <-sem }()
 			j := jobs[i]
+			if timeouts.Load() >= maxTimeouts {
+				outs[i] = jobOut{caseLine: "SKIP", implLine: "skipped", kind: j.w.kind}
+				return
+			}
 			res := runFlow(j.w, j.src, j.sch)
+			if res.class == "timeout" {
+				// A deadlock is a property of (workflow, completion order): it must
+				// reproduce when the same order is replayed.  (Guards against a
+				// starved machine being mistaken for a deadlock.)
+				again := runFlow(j.w, j.src, &scriptSched{acts: parseScript(strings.Join(res.labels, " "))})
+				if again.class == "timeout" {
+					timeouts.Add(1)
+				}
+				res = again
+			}
 			outs[i] = jobOut{
 				caseLine: fmt.Sprintf("FLOW %d | %s | %s", len(j.w.tasks), j.w.specString(), strings.Join(res.labels, " ")),
 				implLine: res.implLine(),
@@ -1089,6 +1112,80 @@ func genCyc(r *common.Rng, out *common.Out) {
 
 var kinds = []string{"chain", "diamond", "fanin", "fanout", "random", "random", "late", "late", "cyclic", "latecyclic"}
 
+// hypotheses of the Coq theorems, computed independently of the model
+func (w *wfSpec) flags() string {
+	n := len(w.tasks)
+	known, trig, closed := 1, 1, 1
+	for i, t := range w.tasks {
+		if t.trig >= i {
+			trig = 0
+		}
+		// grounded activations of task i (fixpoint)
+		g := map[int]bool{-1: true}
+		for changed := true; changed; {
+			changed = false
+			for _, d := range t.deps {
+				if d.to != i && g[d.act] && !g[d.to] {
+					g[d.to] = true
+					changed = true
+				}
+			}
+		}
+		for _, d := range t.deps {
+			if d.to >= n || !(w.tasks[d.to].trig == -1 || w.tasks[d.to].trig == d.act) {
+				known = 0
+			}
+			if !g[d.act] {
+				closed = 0
+			}
+		}
+	}
+	acyc := 1
+	if w.cyclic() {
+		acyc = 0
+	}
+	return fmt.Sprintf("known=%d trig=%d closed=%d acyclic=%d", known, trig, closed, acyc)
+}
+
+func parseScript(labels string) []action {
+	var acts []action
+	for _, tok := range strings.Fields(labels) {
+		switch {
+		case tok == "X":
+			acts = append(acts, action{cancel: true})
+		case tok[0] == 'C':
+			id, _ := strconv.Atoi(tok[1 : len(tok)-1])
+			acts = append(acts, action{task: id, ok: tok[len(tok)-1] == '+'})
+		}
+	}
+	return acts
+}
+
+func runCycLine(line string, out *common.Out) {
+	parts := strings.Split(line, "|")
+	n, _ := strconv.Atoi(strings.Fields(parts[0])[1])
+	deps := make([][]int, n)
+	for _, ent := range strings.Split(parts[1], ";") {
+		ent = strings.TrimSpace(ent)
+		if ent == "" {
+			continue
+		}
+		kv := strings.SplitN(ent, ":", 2)
+		i, _ := strconv.Atoi(kv[0])
+		for _, d := range strings.Split(kv[1], ",") {
+			if d != "" {
+				x, _ := strconv.Atoi(d)
+				deps[i] = append(deps[i], x)
+			}
+		}
+	}
+	b := 0
+	if flow.VerifCheckCycle(deps) {
+		b = 1
+	}
+	out.Emit(strings.TrimSpace(line), fmt.Sprintf("cyc=%d", b))
+}
+
 func main() {
 	args := common.Args(os.Args[1:])
 	seed := uint64(common.Atoi(args["--seed"], 1))
@@ -1101,50 +1198,190 @@ func main() {
 	ncyc := common.Atoi(args["--ncyc"], 2000)
 	par := common.Atoi(args["--par"], 12)
 	exh := common.Atoi(args["--exhaustive"], 0)
+	maxOrders := common.Atoi(args["--max-orders"], 1000)
+	only := common.Atoi(args["--only"], -1)
 	r := common.NewRng(seed)
 	out := common.NewOut(outDir)
 	defer out.Close()
-	detail, _ := os.Create(outDir + "/detail.txt")
-	defer detail.Close()
 
 	if f := args["--show"]; f != "" {
 		w := genWF(r, f)
 		fmt.Println(w.render())
-		fmt.Println(w.specString())
+		fmt.Println(w.specString(), w.flags())
 		res := runFlow(w, w.render(), &randomSched{r: r.Fork(), failTask: -1, cancelAt: -1})
 		fmt.Println(strings.Join(res.labels, " "))
 		fmt.Println(res.implLine())
 		fmt.Println(res.detail)
 		return
 	}
+	if line := args["--cyc-line"]; line != "" {
+		runCycLine(line, out)
+		return
+	}
 
+	stats := map[string]int{}
 	var jobs []job
+	var wfs []*wfSpec
 	for i := 0; i < nflow; i++ {
 		kind := kinds[i%len(kinds)]
 		w := genWF(r, kind)
+		wfs = append(wfs, w)
 		src := w.render()
 		for k := 0; k < reps; k++ {
 			s := &randomSched{r: r.Fork(), failTask: -1, cancelAt: -1}
+			what := "sched_all_ok"
 			switch {
 			case k == 0:
 			case r.Chance(1, 3):
 				s.failTask = r.Intn(len(w.tasks))
 				s.abort = r.Chance(1, 4)
+				what = "sched_one_failure"
+				if s.abort {
+					what = "sched_one_abort"
+				}
 			case r.Chance(1, 6):
 				s.cancelAt = r.Intn(len(w.tasks))
+				what = "sched_cancel"
 			}
-			jobs = append(jobs, job{w: w, src: src, sch: s})
+			jobs = append(jobs, job{w: w, src: src, sch: s, extra: what})
 		}
 	}
-	_ = exh
+
+	if only >= 0 {
+		// replay of one generated (workflow, schedule) pair with a scripted schedule
+		if only >= len(jobs) {
+			fmt.Fprintln(os.Stderr, "no such job")
+			os.Exit(2)
+		}
+		j := jobs[only]
+		j.sch = &scriptSched{acts: parseScript(args["--script"])}
+		o := runJobs([]job{j}, 1)[0]
+		out.Emit(o.caseLine, o.implLine)
+		fmt.Fprintln(os.Stderr, j.src)
+		fmt.Fprintln(os.Stderr, o.res.detail)
+		return
+	}
+
+	cue, _ := os.Create(outDir + "/cue.txt")
+	defer cue.Close()
+	detail, _ := os.Create(outDir + "/detail.txt")
+	defer detail.Close()
+
 	outs := runJobs(jobs, par)
 	for i, o := range outs {
+		fmt.Fprintf(cue, "%d\t%s\n", out.N, strings.ReplaceAll(jobs[i].src, "\n", "\\n"))
 		out.Emit(o.caseLine, o.implLine)
+		stats["kind_"+o.kind]++
+		stats[jobs[i].extra]++
+		stats["dep_results_seen_at_dispatch"] += o.res.seen
 		if o.res.detail != "" {
-			fmt.Fprintf(detail, "case %d kind=%s\n%s\n%s\n--\n", i, o.kind, jobs[i].src, o.res.detail)
+			fmt.Fprintf(detail, "job %d kind=%s\n%s\n%s\n--\n", i, o.kind, jobs[i].src, o.res.detail)
 		}
 	}
+	for _, w := range wfs {
+		fl := w.flags()
+		out.Emit(fmt.Sprintf("WFQ %d | %s", len(w.tasks), w.specString()), fl)
+		for _, kv := range strings.Fields(fl) {
+			if strings.HasSuffix(kv, "=1") {
+				stats["wf_"+strings.TrimSuffix(kv, "=1")]++
+			}
+		}
+		if !strings.Contains(fl, "=0") {
+			stats["wf_all_hypotheses"]++
+		}
+		for _, t := range w.tasks {
+			for _, e := range t.edges {
+				stats["form_"+formNames[e.form]]++
+			}
+			if t.trig >= 0 {
+				stats["late_tasks"]++
+			}
+		}
+	}
+
+	// every completion order of small acyclic workflows
+	if exh > 0 {
+		type exhOut struct {
+			outs []jobOut
+			srcs string
+		}
+		small := make([]*wfSpec, 0, exh)
+		for len(small) < exh {
+			kind := kinds[r.Intn(8)] // acyclic kinds
+			w := genWF(r, kind)
+			if len(w.tasks) <= 6 && !w.cyclic() {
+				small = append(small, w)
+			}
+		}
+		results := make([]exhOut, len(small))
+		var wg sync.WaitGroup
+		sem := make(chan struct{}, par)
+		for i, w := range small {
+			wg.Add(1)
+			sem <- struct{}{}
+			go func(i int, w *wfSpec) {
+				defer wg.Done()
+				defer func() { <-sem }()
+				src := w.render()
+				var prefix []int
+				for n := 0; n < maxOrders && timeouts.Load() < maxTimeouts; n++ {
+					sch := &odoSched{prefix: prefix, failT: -1}
+					res := runFlow(w, src, sch)
+					if res.class == "timeout" {
+						sch = &odoSched{prefix: prefix, failT: -1}
+						res = runFlow(w, src, sch)
+						if res.class == "timeout" {
+							timeouts.Add(1)
+						}
+					}
+					results[i].outs = append(results[i].outs, jobOut{
+						caseLine: fmt.Sprintf("FLOW %d | %s | %s", len(w.tasks), w.specString(), strings.Join(res.labels, " ")),
+						implLine: res.implLine(), res: res, kind: w.kind})
+					// next choice sequence
+					ar := sch.arity
+					cur := make([]int, len(ar))
+					copy(cur, prefix)
+					k := len(ar) - 1
+					for k >= 0 && cur[k]+1 >= ar[k] {
+						k--
+					}
+					if k < 0 {
+						break
+					}
+					cur[k]++
+					prefix = cur[:k+1]
+				}
+				results[i].srcs = src
+			}(i, w)
+		}
+		wg.Wait()
+		for _, ro := range results {
+			for _, o := range ro.outs {
+				fmt.Fprintf(cue, "%d\t%s\n", out.N, strings.ReplaceAll(ro.srcs, "\n", "\\n"))
+				out.Emit(o.caseLine, o.implLine)
+				stats["exhaustive_orders"]++
+				stats["dep_results_seen_at_dispatch"] += o.res.seen
+			}
+			stats["exhaustive_workflows"]++
+		}
+	}
+
 	for i := 0; i < ncyc; i++ {
 		genCyc(r, out)
 	}
+	sf, _ := os.Create(outDir + "/stats.json")
+	keys := make([]string, 0, len(stats))
+	for k := range stats {
+		keys = append(keys, k)
+	}
+	sort.Strings(keys)
+	fmt.Fprint(sf, "{")
+	for i, k := range keys {
+		if i > 0 {
+			fmt.Fprint(sf, ",")
+		}
+		fmt.Fprintf(sf, "%q:%d", k, stats[k])
+	}
+	fmt.Fprintln(sf, "}")
+	sf.Close()
 }
